@@ -75,6 +75,7 @@ package regular
 //@   ensures [selects-exactly-the-handler-label-case-sensitively] result == contains(key.Comment, "paranoids.regular")
 
 //@ func (*csrAgentKey).addCSR(c, csr)
+//@   flag inline
 //@   requires c != nil
 //@   modifies c.csrs, elems(c.csrs)
 //@   ensures len(c.csrs) == old(len(c.csrs)) + 1 && c.csrs[old(len(c.csrs))] == csr
@@ -112,7 +113,7 @@ package regular
 //@   let g0 = old(calls(generateAgentKey))
 //@   let m0 = old(calls(ssh.MarshalAuthorizedKey))
 //@   ensures err != nil ==> (result0 == nil && typeof(err) == *gensign.Error)
-//@   ensures param == nil ==> gensign.isErr(err, 1)
+//@   ensures param == nil ==> gensign.isErr(err, 4)
 //@   ensures [one-agent-key-with-one-request] err == nil ==> (param != nil && len(result0) == 1 && typeof(result0[0]) == *csrAgentKey &&
 //@     pl(result0[0]) != 0 && len(result0[0].(*csrAgentKey).csrs) == 1 && result0[0].(*csrAgentKey).csrs[0] != nil && fresh(result0[0].(*csrAgentKey).csrs[0]))
 //@   ensures [single-principal-is-the-server-side-login-name] err == nil ==> (len(result0[0].(*csrAgentKey).csrs[0].Principals) == 1 &&
@@ -126,7 +127,7 @@ package regular
 //@     (param.Attrs.CAPubKeyAlgo in dom(h.conf.KeyIdentifiers)) &&
 //@     result0[0].(*csrAgentKey).csrs[0].KeyMeta.Identifier == h.conf.KeyIdentifiers[param.Attrs.CAPubKeyAlgo])
 //@   ensures [refused-when-no-slot-is-configured] (param != nil && !(param.Attrs.CAPubKeyAlgo in dom(h.conf.KeyIdentifiers))) ==> (err != nil &&
-//@     (calls(generateAgentKey) == g0 + 1 && ret(generateAgentKey, g0, 1) == nil ==> gensign.isErr(err, 5)))
+//@     (calls(generateAgentKey) == g0 + 1 && ret(generateAgentKey, g0, 1) == nil ==> gensign.isErr(err, 6)))
 //@   ensures [certifies-the-key-pair-generated-for-this-request] err == nil ==> (calls(generateAgentKey) == g0 + 1 && arg(generateAgentKey, g0, 0) == h &&
 //@     ret(generateAgentKey, g0, 1) == nil && pl(result0[0]) == ret(generateAgentKey, g0, 0) &&
 //@     calls(ssh.MarshalAuthorizedKey) == m0 + 1 && arg(ssh.MarshalAuthorizedKey, m0, 0) == ret(generateAgentKey, g0, 0).AgentKey.pubKey &&
